@@ -237,3 +237,37 @@ Example ctx_example :
   | None => False
   end.
 Proof. vm_compute. repeat split. Qed.
+
+(* The token is never held on behalf of a call that reported an error: in every reachable state
+   (all schedules, including those in which the select picked the send although the context was
+   already done - [XTake] does not look at the context) a taken token has an owner, and no owner's
+   last acquisition ended in an error.  So after any number of error returns the lock is free
+   whenever nobody is inside or on its way in or out. *)
+Lemma ctx_token_never_orphaned : forall es s, xrun xinit es = Some s ->
+  (tok s = true -> exists t, owns s t /\ xres s t <> Some false) /\
+  (forall t, xres s t = Some false -> ~ owns s t) /\
+  ((forall t, ~ owns s t) -> tok s = false /\ rww s = false /\ rwr s = 0%nat).
+Proof.
+  intros es s Hr. pose proof (ctx_token_all es s Hr) as (H1 & _ & _ & H4).
+  split; [|split].
+  - intro Ht. destruct (proj1 H1 Ht) as [t Ho]. exists t. split; auto.
+    intro He. destruct (ctx_error_holds_nothing_all es s t Hr He) as [_ Hn]. contradiction.
+  - intros t He. apply (ctx_error_holds_nothing_all es s t Hr He).
+  - intro Hno. split.
+    + destruct (tok s) eqn:E; auto. destruct (proj1 H1 eq_refl) as [t Ho]. exfalso. eapply Hno; eauto.
+    + apply H4. apply no_owner_no_hold. exact Hno.
+Qed.
+
+(* the seam of the seeded change C13-r3m1: the context is already done, the lock is free, the select
+   picks the send: the call ACQUIRES (returns nil) - it never reports an error while keeping the
+   token - and after its Unlock the token is free again *)
+Example ctx_send_although_done :
+  match xrun xinit [XCancel 7; XCall 1 true 7; XTake 1; XRW 1] with
+  | Some s => xpcs s 1 = XHold true /\ xres s 1 = Some true /\ xstep s (XErr 1) = None /\
+      match xrun s [XUnlockA 1; XUnlockB 1; XCall 2 false 7; XErr 2] with
+      | Some s2 => tok s2 = false /\ xres s2 2 = Some false /\ xpcs s2 2 = XIdle
+      | None => False
+      end
+  | None => False
+  end.
+Proof. vm_compute. repeat split. Qed.
